@@ -3,7 +3,7 @@ import os, json
 import common
 from common import VERIF, COQ, BIN, CheckError
 
-CONE = ["Base/Str.v", "Tools/Names.v", "Tools/NamesLemmas.v", "Tools/NamesRun.v"]
+CONE = ["Gen/GenLanguage.v", "Base/Str.v", "Tools/Names.v", "Tools/NamesLemmas.v", "Tools/NamesRun.v"]
 CFG = {
     "C01": dict(props="Props/C01.v", nrep="c01n.json", srep="c01.json",
                 where="pascalize / varname / snakize / swag.ToGoName / ToFileName / ToHumanNameTitle / paramMappings of the tree under test vs Tools/Names.v"),
@@ -17,13 +17,14 @@ def run(ctx):
     quick = ctx.tier != "thorough"
     ctx.build_tools(["namecheck", "servercheck"])
     ctx.build_swagger()
+    ctx.translate([("language", "GenLanguage.v")])
     cq = common.coq_phase(ctx, cfg["props"], CONE + [cfg["props"]], ["Tools/NamesRun.vo"])
     broken = []
     ndir = os.path.join(ctx.work, "names")
     args = [os.path.join(BIN, "namecheck"), "-bin", os.path.join(BIN, "swagger"), "-work", os.path.join(ctx.work, "ngen"), "-out", ndir, "-seed", str(ctx.seed),
             "-known", os.path.join(VERIF, "KNOWN_FINDINGS.jsonl"), "-workers", "8"]
     if quick:
-        args += ["-names", "1500", "-opsets", "150", "-specs", "3", "-knownruns", "8", "-regress", "8"]
+        args += ["-names", "1500", "-opsets", "150", "-specs", "3", "-knownruns", "8", "-regress", "11"]
     else:
         args += ["-names", "12000", "-opsets", "1500", "-specs", "36", "-allmodes", "-sweep", "-regress", "60"]
     ctx.sh(args, timeout=14000)
